@@ -83,6 +83,16 @@ func loadProg(repoDir string, patterns []string, tags string) (*Prog, error) {
 				return nil, err
 			}
 			for _, c := range cf.Contracts {
+				if i := strings.LastIndex(c.FnName, "/"); i >= 0 {
+					// contract for a function of another package (e.g. container/heap.Pop[*fragHeap]):
+					// keyed by that package, evaluated in the contract file's package
+					rest := c.FnName[i+1:]
+					if j := strings.Index(rest, "."); j >= 0 {
+						P.contracts[c.FnName[:i+1]+rest[:j]+":"+rest[j+1:]] = c
+						c.External = true
+						continue
+					}
+				}
 				P.contracts[path+":"+c.FnName] = c
 			}
 			P.lemmas = append(P.lemmas, cf.Lemmas...)
